@@ -626,7 +626,7 @@ func genFlow(ctx *core.Ctx) {
 	for i := 0; i < ctx.Pick(600, 12000); i++ {
 		m, env, _ := randModel(ctx.Rng, false)
 		o := randOpts(ctx.Rng)
-		ctx.Count("flow-random-opts")
+		countOpts(ctx, "flow-random-opt", o)
 		ctx.Add("c20.flow", c20TreeArgs{Dict: enc(m.main()), Env: env, PName: m.pname, Opts: o})
 	}
 }
@@ -965,6 +965,14 @@ func sortedKeys(m map[string]string) []string {
 	return l
 }
 
+// countOpts records one random option draw: the stream total and one counter per option that is on
+func countOpts(ctx *core.Ctx, prefix string, o *loadOpts) {
+	ctx.Count(prefix + "s")
+	for _, f := range strings.Split(o.label(), "+") {
+		ctx.Count(prefix + "-" + f)
+	}
+}
+
 func genLeak(ctx *core.Ctx) {
 	// exhaustive: every decoration × {secret, config} × reference mode, one environment resource of each kind
 	for di, deco := range c20Deco {
@@ -1069,7 +1077,7 @@ func genLeak(ctx *core.Ctx) {
 			}
 			if r.Intn(3) == 0 {
 				a.Opts = randOpts(r)
-				ctx.Count("leak-random-opts-" + a.Opts.label())
+				countOpts(ctx, "leak-random-opt", a.Opts)
 			}
 			ctx.Add("c20.leak", a)
 			continue
@@ -1077,7 +1085,7 @@ func genLeak(ctx *core.Ctx) {
 		a := m.leakArgs(env, cores, layout)
 		if ctx.Rng.Intn(3) == 0 {
 			a.Opts = randOpts(ctx.Rng)
-			ctx.Count("leak-random-opts-" + a.Opts.label())
+			countOpts(ctx, "leak-random-opt", a.Opts)
 		}
 		ctx.Add("c20.leak", a)
 	}
